@@ -24,6 +24,40 @@ package main
 //
 // Stage 6 (`KDoc`: the same blocks, directly behind each other where CommonMark allows it; `spellK`, `expectedK`,
 // `kembed`): ops `kenum <i>` (scope size `cmfrag kcount`) and `kgen <seed> <size>`.
+//
+// Stage 7 (the stage-6 documents with `trail` forced to 0, written WITHOUT the final line feed; `spellKE`, `expectedK`,
+// `kembedE`): ops `eenum <i>` (scope size `cmfrag ecount`, the indices of `kenum`) and `egen <seed> <size>`.
+//
+// Stage 8 (`RDoc`: documents of paragraphs whose lines contain code spans; `spellR`, `expectedR`, `rembed`): ops
+// `renum <i>` (scope size `cmfrag rcount`) and `rgen <seed> <size>`.
+//
+// Stage 9 (`BDoc`: documents of paragraphs whose lines, the last one of a paragraph excepted, may end in a hard line
+// break written with a backslash; `spellBD`, `expectedBD`, `bembed`): ops `benum <i>` (scope size `cmfrag bcount`) and
+// `bgen <seed> <size>`.
+//
+// Stage 10 (a stage-6 document inside ONE block quote: `"> "` in front of every line, blank lines too; the source free
+// of the bytes that could start a list item or a link label; `spellQ`, `expectedQ`, `qembed`): ops `qenum <i>` (scope
+// size `cmfrag qcount`) and `qgen <seed> <size>`.
+//
+// Stage 10 without the final line feed (the documents of stage 10 with `trail` forced to 0, the line feed of the last
+// line left out; `spellQE`, `expectedQ`, `qembedE`): ops `qeenum <i>` (scope size `cmfrag qecount`, the indices of
+// `qenum`) and `qegen <seed> <size>`.
+//
+// Stage 11 (`EDoc`: documents of paragraphs whose lines contain code spans, `*x*` and `**x**`; `spellE`, `expectedE`,
+// `eembed`): ops `emenum <i>` (scope size `cmfrag emcount`) and `emgen <seed> <size>`.
+//
+// Stage 12 (`IDoc`: the stage-6 blocks and INDENTED CODE BLOCKS — lines of four spaces and text — where an indented code
+// block needs a blank line behind a paragraph, any block may follow it directly, blank lines behind it are not content,
+// and no indented code block follows an indented code block; `spellIc`, `expectedI`, `iembed`): ops `ienum <i>` (scope
+// size `cmfrag icount`) and `igen <seed> <size>`; the same documents with `trail` forced to 0, written WITHOUT the final
+// line feed (`spellIcE`, `expectedI`, `iembedE`; the last block may be an indented code block): ops `ieenum <i>` and
+// `iegen <seed> <size>`.
+//
+// Stage 13 (`UDocS`, the union: the blocks of stage 6 and the indented code blocks of stage 12, paragraph lines and
+// heading texts are the rich lines of stage 11, paragraph lines may end in a backslash hard line break as in stage 9;
+// without final line feed the last block is not an indented code block; `spellU`, `expectedU`,
+// `uembed`): ops `uenum <i>` (scope size `cmfrag ucount`) and `ugen <seed> <size>`; written without the final line
+// feed (`spellUE`, `uembedE`, `trail` forced to 0): ops `ueenum <i>` (scope size `cmfrag uecount`) and `uegen <seed> <size>`.
 
 import (
 	"bytes"
@@ -46,7 +80,7 @@ var (
 func init() {
 	register(&Component{
 		Name: "cmfrag",
-		Rule: "members of the fragment GM.Spec.CMFrag generated by the Lean driver (exhaustive small scope + random documents; stage 1-3 documents of paragraphs, stage-4 documents of paragraphs, ATX headings and thematic breaks, stage-5 documents of these and fenced code blocks, and stage-6 documents of the same blocks without a blank line in between where CommonMark allows it), converted by the real goldmark and compared byte for byte with expectedF / expectedG / expectedH / expectedK; non-trivial = more than one line or block, a blank-line choice, a heading, thematic break or fenced code block, or a character not written literally; distinct = (blocks by kind, lines, blank-line shape, set of spelling kinds / escaped output characters; for fenced code: info string, empty content, empty content line, fence at the end of the source; for stage 6: the ordered pairs of block kinds that abut)",
+		Rule: "members of the fragment GM.Spec.CMFrag generated by the Lean driver (exhaustive small scope + random documents; stage 1-3 documents of paragraphs, stage-4 documents of paragraphs, ATX headings and thematic breaks, stage-5 documents of these and fenced code blocks, stage-6 documents of the same blocks without a blank line in between where CommonMark allows it, and stage-7 documents = stage-6 documents written without the final line feed, and stage-8 documents of paragraphs whose lines contain code spans, and stage-9 documents of paragraphs with backslash hard line breaks, and stage-10 documents = stage-6 documents without list / link-label starting bytes inside one block quote (also written without the final line feed), and stage-11 documents of paragraphs whose lines contain code spans, `*x*` and `**x**`, and stage-12 documents = stage-6 blocks and indented code blocks (also written without the final line feed), and stage-13 documents = the stage-6 / stage-7 block structure with the rich lines of stage 11 as paragraph lines and heading texts and backslash hard line breaks behind paragraph lines, and stage-14 documents = the stage-10 documents inside 2..4 nested block quotes (a few inside one)), converted by the real goldmark and compared byte for byte with expectedF / expectedG / expectedH / expectedK / expectedR / expectedBD / expectedQ / expectedE / expectedI / expectedU / expectedNQ; non-trivial = more than one line or block, a blank-line choice, a heading, thematic break or fenced code block, or a character not written literally; distinct = (blocks by kind, lines, blank-line shape, set of spelling kinds / escaped output characters; for fenced code: info string, empty content, empty content line, fence at the end of the source; for stage 6 and 7: the ordered pairs of block kinds that abut; for stage 7: the kind of the last line; for stage 8: the number of code spans of the fullest line, the classes of the source bytes directly before an opening and directly after a closing delimiter; for stage 9: the number of hard breaks, of soft breaks, the classes of the two source bytes in front of a break backslash, a paragraph whose breaks are all hard; for stage 10: the key of the quoted stage-6 document, a quoted blank line first / last / inside a fence; for stage 11: the stage-8 key, the numbers of emphases and strong emphases of the fullest line, the classes of the source bytes directly before an opening and directly after a closing delimiter run; for stage 12: for every indented code block the kind of the line in front of it and what follows it — the next block directly, 1..3 blank lines and then which block, or the end; without the final line feed also the kind of the last line; for stage 13: the stage-6 / stage-7 key, the stage-8 / 9 / 11 keys, a heading with a code span / emphasis / strong emphasis, a hard break directly behind a line that contains a code span / emphasis; for stage 14: the stage-10 key and the number of quotes)",
 		Gen:  genCMFrag,
 		Impl: implCMFrag,
 		Scope: func(tier string) string {
@@ -54,10 +88,18 @@ func init() {
 			ex += "; stage 4, all indices of Driver.CMFrag.gfamilies (one heading: 6 levels x 15 texts x gap 0..1 x trail 0..1; one thematic break: 3 characters x 4 lengths x gap x trail; all sequences of 1..3 of {paragraph of 1 line, of 2 lines, heading, ---, ***, ___} x gap 0..1 each x trail 0..1; blank lines only)"
 			ex += "; stage 5, all indices of Driver.CMFrag.hfamilies (one fence: 2 fence characters x 3 lengths x 3 infos x 12 contents x trail 0..1; all ordered pairs of {paragraph, heading, ---, backtick fence with info and one line, tilde fence without lines} x gap 0..1 each x trail 0..1; two fences x same / other character x 3 lengths x trail 0..1)"
 			ex += "; stage 6, all indices of Driver.CMFrag.kfamilies (all ordered pairs and triples of {paragraph of 1 line, of 2 lines, heading, ---, ***, ___, backtick fence with one line, tilde fence without lines, backtick fence with info} x blank line or none in front of each later block (the combinations outside the fragment are skipped) x trail 0..1; 12 chains of 4 abutting blocks x trail 0..1)"
+			ex += "; stage 7, the same indices as stage 6 with trail forced to 0 and the source written without its final line feed"
+			ex += "; stage 8, all indices of Driver.CMFrag.rfamilies (15 fixed lines with one to three code spans x gap 0..1 x trail 0..1; each of the 95 printable characters x 7 spellings directly before and directly after a code span, and alone between two code spans; all shapes of 1..2 paragraphs x 1..3 lines x gap 0..1 x trail 0..1 x 5 line-pool rotations; blank lines only)"
+			ex += "; stage 9, all indices of Driver.CMFrag.bfamilies (the last character of a hard line: the 95 printable characters x 7 spellings x 3 positions, only a literal letter or digit being inside the fragment; one paragraph of 2 and of 3 lines x every flag combination x 4 line-pool rotations x gap 0..1 x trail 0..1; two paragraphs; hard lines of one and of two characters; every notable character and every pair of them in front of the last character of a hard line; the line behind a hard line; blank lines only)"
+			ex += "; stage 10, all indices of Driver.CMFrag.qfamilies (the stage-6 indices with `-`, `*`, `+`, `[`, digits replaced; one block of every kind x 0..2 blank lines in front x 0..2 behind; fences with empty and marker-like content lines, alone and directly behind a paragraph), every line behind a block-quote marker; stage 10 without the final line feed, the same indices with trail forced to 0 and the source written without its final line feed"
+			ex += "; stage 11, all indices of Driver.CMFrag.emfamilies (27 fixed lines with emphasis, strong emphasis and code spans x gap 0..1 x trail 0..1; each of the 95 printable characters x 7 spellings directly before an opening and directly after a closing * / ** run, next to a letter and next to a space; the same characters alone between all 16 ordered pairs of {*x*, **x**, code span, *xy*}; all shapes of 1..2 paragraphs x 1..3 lines x gap 0..1 x trail 0..1 x 9 line-pool rotations; blank lines only)"
+			ex += "; stage 12, all indices of Driver.CMFrag.ifamilies (one indented code block: 12 contents x 0..2 blank lines in front x 0..3 behind; all ordered pairs and triples of {the nine block kinds of stage 6, indented code block} x 0..2 blank lines in front of each later block x trail 0..2, the combinations outside the fragment skipped), and the same indices with trail forced to 0 written without the final line feed"
+			ex += "; stage 13, all indices of Driver.CMFrag.ufamilies (22 fixed documents: rich headings, heading texts ending in a code span / emphasis / an escaped # / a space (outside the fragment: skipped), hard breaks directly behind x*y*z and a`x`b, blocks directly behind a hard-broken paragraph; all ordered pairs of {rich paragraph of 1 line, of 2 lines with a hard break, rich heading, ***, fence, ---, rich paragraph of 2 lines} x blank line or none x trail 0..1 x 8 line-pool rotations; all ordered triples of the first five kinds x blank line or none each x trail 0..1; one heading: 6 levels x 27 stage-11 lines x trail 0..1; one paragraph of 3 stage-11 lines x every combination of hard flags x trail 0..1; blank lines only), and the same indices with trail forced to 0 written without the final line feed"
+			ex += "; stage 14, every stage-10 index x 2, 3, 4 nested quotes, every 16th stage-10 index inside one quote (Driver.CMFrag.withNQDoc)"
 			if tier == "thorough" {
-				return ex + "; 40k random fragment documents (size 1..10); 40k random stage-4 documents (size 1..10); 40k random stage-5 documents (size 1..10); 40k random stage-6 documents (size 1..10)"
+				return ex + "; 40k random fragment documents (size 1..10); 40k random stage-4 documents (size 1..10); 40k random stage-5 documents (size 1..10); 40k random stage-6 documents (size 1..10); 40k random stage-7 documents (size 1..10); 40k random stage-8 documents (size 1..10); 40k random stage-9 documents (size 1..10); 40k random stage-10 documents (size 1..10); 40k random stage-10 documents without the final line feed (size 1..10); 40k random stage-11 documents (size 1..10); 40k random stage-12 documents with and 40k without the final line feed (size 1..10); 40k random stage-13 documents with and 40k without the final line feed (size 1..10); 40k random stage-14 documents (size 1..10)"
 			}
-			return ex + "; 3k random fragment documents (size 1..6); 3k random stage-4 documents (size 1..6); 3k random stage-5 documents (size 1..6); 3k random stage-6 documents (size 1..6)"
+			return ex + "; 3k random fragment documents (size 1..6); 3k random stage-4 documents (size 1..6); 3k random stage-5 documents (size 1..6); 3k random stage-6 documents (size 1..6); 3k random stage-7 documents (size 1..6); 3k random stage-8 documents (size 1..6); 3k random stage-9 documents (size 1..6); 3k random stage-10 documents (size 1..6); 3k random stage-10 documents without the final line feed (size 1..6); 3k random stage-11 documents (size 1..6); 3k random stage-12 documents with and 3k without the final line feed (size 1..6); 3k random stage-13 documents with and 3k without the final line feed (size 1..6); 3k random stage-14 documents (size 1..6)"
 		},
 		Exhaustive: true,
 	})
@@ -126,8 +168,118 @@ func genCMFrag(tier string, rng *RNG, emit func(Case)) {
 		seed := rng.Next() % 1000000007
 		add(Case{Op: "kgen", Args: []string{strconv.FormatUint(seed, 10), strconv.Itoa(1 + i%maxSize)}})
 	}
+	ecount := 0
+	if r, err := runDriver(driverPath, []string{"cmfrag ecount"}); err == nil && len(r) == 1 {
+		ecount, _ = strconv.Atoi(r[0])
+	}
+	for i := 0; i < ecount; i++ {
+		add(Case{Op: "eenum", Args: []string{strconv.Itoa(i)}})
+	}
+	for i := 0; i < nrand; i++ {
+		seed := rng.Next() % 1000000007
+		add(Case{Op: "egen", Args: []string{strconv.FormatUint(seed, 10), strconv.Itoa(1 + i%maxSize)}})
+	}
+	rcount := 0
+	if r, err := runDriver(driverPath, []string{"cmfrag rcount"}); err == nil && len(r) == 1 {
+		rcount, _ = strconv.Atoi(r[0])
+	}
+	for i := 0; i < rcount; i++ {
+		add(Case{Op: "renum", Args: []string{strconv.Itoa(i)}})
+	}
+	for i := 0; i < nrand; i++ {
+		seed := rng.Next() % 1000000007
+		add(Case{Op: "rgen", Args: []string{strconv.FormatUint(seed, 10), strconv.Itoa(1 + i%maxSize)}})
+	}
+	bcount := 0
+	if r, err := runDriver(driverPath, []string{"cmfrag bcount"}); err == nil && len(r) == 1 {
+		bcount, _ = strconv.Atoi(r[0])
+	}
+	for i := 0; i < bcount; i++ {
+		add(Case{Op: "benum", Args: []string{strconv.Itoa(i)}})
+	}
+	for i := 0; i < nrand; i++ {
+		seed := rng.Next() % 1000000007
+		add(Case{Op: "bgen", Args: []string{strconv.FormatUint(seed, 10), strconv.Itoa(1 + i%maxSize)}})
+	}
+	qcount := 0
+	if r, err := runDriver(driverPath, []string{"cmfrag qcount"}); err == nil && len(r) == 1 {
+		qcount, _ = strconv.Atoi(r[0])
+	}
+	for i := 0; i < qcount; i++ {
+		add(Case{Op: "qenum", Args: []string{strconv.Itoa(i)}})
+	}
+	for i := 0; i < nrand; i++ {
+		seed := rng.Next() % 1000000007
+		add(Case{Op: "qgen", Args: []string{strconv.FormatUint(seed, 10), strconv.Itoa(1 + i%maxSize)}})
+	}
+	qecount := 0
+	if r, err := runDriver(driverPath, []string{"cmfrag qecount"}); err == nil && len(r) == 1 {
+		qecount, _ = strconv.Atoi(r[0])
+	}
+	for i := 0; i < qecount; i++ {
+		add(Case{Op: "qeenum", Args: []string{strconv.Itoa(i)}})
+	}
+	for i := 0; i < nrand; i++ {
+		seed := rng.Next() % 1000000007
+		add(Case{Op: "qegen", Args: []string{strconv.FormatUint(seed, 10), strconv.Itoa(1 + i%maxSize)}})
+	}
+	emcount := 0
+	if r, err := runDriver(driverPath, []string{"cmfrag emcount"}); err == nil && len(r) == 1 {
+		emcount, _ = strconv.Atoi(r[0])
+	}
+	for i := 0; i < emcount; i++ {
+		add(Case{Op: "emenum", Args: []string{strconv.Itoa(i)}})
+	}
+	for i := 0; i < nrand; i++ {
+		seed := rng.Next() % 1000000007
+		add(Case{Op: "emgen", Args: []string{strconv.FormatUint(seed, 10), strconv.Itoa(1 + i%maxSize)}})
+	}
+	ucount := 0
+	if r, err := runDriver(driverPath, []string{"cmfrag ucount"}); err == nil && len(r) == 1 {
+		ucount, _ = strconv.Atoi(r[0])
+	}
+	for _, op := range []string{"u", "ue"} {
+		for i := 0; i < ucount; i++ {
+			add(Case{Op: op + "enum", Args: []string{strconv.Itoa(i)}})
+		}
+		for i := 0; i < nrand; i++ {
+			seed := rng.Next() % 1000000007
+			add(Case{Op: op + "gen", Args: []string{strconv.FormatUint(seed, 10), strconv.Itoa(1 + i%maxSize)}})
+		}
+	}
+	// stage 14: the stage-10 documents inside k + 1 nested block quotes (k = 1..3; a few with k = 0)
+	nqcount := 0
+	if r, err := runDriver(driverPath, []string{"cmfrag nqcount"}); err == nil && len(r) == 1 {
+		nqcount, _ = strconv.Atoi(r[0])
+	}
+	for i := 0; i < nqcount; i++ {
+		add(Case{Op: "nqenum", Args: []string{strconv.Itoa(i)}})
+	}
+	for i := 0; i < nrand; i++ {
+		seed := rng.Next() % 1000000007
+		add(Case{Op: "nqgen", Args: []string{strconv.FormatUint(seed, 10), strconv.Itoa(1 + i%maxSize)}})
+	}
+	// stage 12: the stage-6 blocks and indented code blocks, with and without the final line feed
+	icount := 0
+	if r, err := runDriver(driverPath, []string{"cmfrag icount"}); err == nil && len(r) == 1 {
+		icount, _ = strconv.Atoi(r[0])
+	}
+	for i := 0; i < icount; i++ {
+		add(Case{Op: "ienum", Args: []string{strconv.Itoa(i)}})
+	}
+	for i := 0; i < nrand; i++ {
+		seed := rng.Next() % 1000000007
+		add(Case{Op: "igen", Args: []string{strconv.FormatUint(seed, 10), strconv.Itoa(1 + i%maxSize)}})
+	}
+	for i := 0; i < icount; i++ {
+		add(Case{Op: "ieenum", Args: []string{strconv.Itoa(i)}})
+	}
+	for i := 0; i < nrand; i++ {
+		seed := rng.Next() % 1000000007
+		add(Case{Op: "iegen", Args: []string{strconv.FormatUint(seed, 10), strconv.Itoa(1 + i%maxSize)}})
+	}
 	resp, err := runDriverParallel(driverPath, lines)
-	if err != nil || count == 0 || gcount == 0 || hcount == 0 || kcount == 0 {
+	if err != nil || icount == 0 || nqcount == 0 || ucount == 0 || emcount == 0 || qecount == 0 || qcount == 0 || count == 0 || gcount == 0 || hcount == 0 || kcount == 0 || ecount == 0 || rcount == 0 || bcount == 0 {
 		// the driver cannot be asked: one case, so that the failure is visible (Impl reports it)
 		emit(Case{Op: "gen", Args: []string{"1", "1"}})
 		return
@@ -264,9 +416,381 @@ func cmfragAbuts(src []byte) string {
 	return strings.Join(out, ",")
 }
 
+// cmfragLastLine: the kind of the last line of a stage-7 source (the line without a line feed): p a paragraph line,
+// h a heading, t a thematic break, c a closing fence; with `+` when the line before it is not blank and belongs to
+// another block (for a closing fence: when the fence has no content lines).
+func cmfragLastLine(src []byte) string {
+	if bytes.HasSuffix(src, []byte("\n")) {
+		return "eol"
+	}
+	ls := bytes.Split(src, []byte("\n"))
+	l := ls[len(ls)-1]
+	kind := "p"
+	switch {
+	case bytes.HasPrefix(l, []byte("    ")):
+		return "i" // the last line of an indented code block (stage 12)
+	case bytes.HasPrefix(l, []byte("```")) || bytes.HasPrefix(l, []byte("~~~")):
+		kind = "c"
+	case len(l) > 0 && l[0] == '#':
+		kind = "h"
+	case len(l) >= 3 && (l[0] == '-' || l[0] == '*' || l[0] == '_') && len(bytes.Trim(l, string(l[0]))) == 0:
+		kind = "t"
+	}
+	if len(ls) < 2 || len(ls[len(ls)-2]) == 0 {
+		return kind
+	}
+	pl := ls[len(ls)-2]
+	prevText := !(pl[0] == '#' || bytes.HasPrefix(pl, []byte("```")) || bytes.HasPrefix(pl, []byte("~~~")) ||
+		(len(pl) >= 3 && (pl[0] == '-' || pl[0] == '*' || pl[0] == '_') && len(bytes.Trim(pl, string(pl[0]))) == 0))
+	switch kind {
+	case "p":
+		if prevText {
+			return "p" // a further line of the same paragraph
+		}
+	case "c":
+		if !(bytes.HasPrefix(pl, []byte("```")) || bytes.HasPrefix(pl, []byte("~~~"))) {
+			return "c" // a content line in front of the closing fence
+		}
+	}
+	return kind + "+"
+}
+
+// cmfragSpans: for a stage-8 source, the largest number of code spans on one line and the classes of the bytes
+// directly before an opening and directly after a closing delimiter (a letter/digit, s space, b backslash-escaped
+// backtick or backslash, ; the end of a reference, p other punctuation).
+func cmfragSpans(src []byte) string {
+	class := func(l []byte, i int, before bool) byte {
+		c := l[i]
+		switch {
+		case c >= 'a' && c <= 'z' || c >= 'A' && c <= 'Z' || c >= '0' && c <= '9':
+			return 'a'
+		case c == ' ':
+			return 's'
+		case c == ';' && before:
+			return ';'
+		case (c == '`' || c == '\\') && before:
+			return 'b'
+		case c == '\\' && i+1 < len(l) && (l[i+1] == '`' || l[i+1] == '\\'):
+			return 'b'
+		}
+		return 'p'
+	}
+	maxSpans := 0
+	pre, post := map[byte]bool{}, map[byte]bool{}
+	for _, l := range bytes.Split(src, []byte("\n")) {
+		spans, open := 0, false
+		for i := 0; i < len(l); i++ {
+			if l[i] == '\\' {
+				i++
+				continue
+			}
+			if l[i] != '`' {
+				continue
+			}
+			if !open {
+				if i > 0 {
+					pre[class(l, i-1, true)] = true
+				}
+			} else {
+				spans++
+				if i+1 < len(l) {
+					post[class(l, i+1, false)] = true
+				}
+			}
+			open = !open
+		}
+		if spans > maxSpans {
+			maxSpans = spans
+		}
+	}
+	set := func(m map[byte]bool) string {
+		var out []byte
+		for _, k := range []byte("asb;p") {
+			if m[k] {
+				out = append(out, k)
+			}
+		}
+		return string(out)
+	}
+	return fmt.Sprintf("%d|pre:%s|post:%s", maxSpans, set(pre), set(post))
+}
+
+// cmfragBreaks: for a stage-9 source, the number of hard breaks (a line that ends in a backslash and is followed by a
+// further line of the paragraph), of soft breaks, the classes of the two source bytes in front of the break backslash
+// (a letter/digit, s space, ; the end of a reference, b backslash, p other punctuation, - none), and `allhard` when
+// some paragraph of three or more lines has only hard breaks.
+func cmfragBreaks(src []byte) string {
+	class := func(c byte) byte {
+		switch {
+		case c >= 'a' && c <= 'z' || c >= 'A' && c <= 'Z' || c >= '0' && c <= '9':
+			return 'a'
+		case c == ' ':
+			return 's'
+		case c == ';':
+			return ';'
+		case c == '\\':
+			return 'b'
+		}
+		return 'p'
+	}
+	hard, soft, allHard := 0, 0, false
+	seen := map[string]bool{}
+	var pre []string
+	ls := bytes.Split(src, []byte("\n"))
+	runHard, runLines := 0, 0
+	for i, l := range ls {
+		if len(l) == 0 {
+			runHard, runLines = 0, 0
+			continue
+		}
+		runLines++
+		if i+1 >= len(ls) || len(ls[i+1]) == 0 {
+			if runLines >= 3 && runHard == runLines-1 {
+				allHard = true
+			}
+			continue
+		}
+		if l[len(l)-1] != '\\' {
+			soft++
+			continue
+		}
+		hard++
+		runHard++
+		k := []byte{'-', '-'}
+		if len(l) >= 3 {
+			k[0] = class(l[len(l)-3])
+		}
+		if len(l) >= 2 {
+			k[1] = class(l[len(l)-2])
+		}
+		if !seen[string(k)] {
+			seen[string(k)] = true
+			pre = append(pre, string(k))
+		}
+	}
+	sort.Strings(pre)
+	out := fmt.Sprintf("%dh%ds|pre:%s", min(hard, 3), min(soft, 3), strings.Join(pre, ","))
+	if allHard {
+		out += "|allhard"
+	}
+	return out
+}
+
+// cmfragQuoted: for a stage-10 source, the stage-6 source inside the quote (every line without its `"> "`), the HTML
+// inside `<blockquote>`, and the places of quoted blank lines: first line, last line, inside a fence.
+func cmfragQuoted(src, got []byte) (inner, innerGot []byte, where string) {
+	ls := bytes.Split(bytes.TrimSuffix(src, []byte("\n")), []byte("\n"))
+	var fl []string
+	fence := byte(0)
+	inFence := false
+	for i, l := range ls {
+		l = bytes.TrimPrefix(l, []byte("> "))
+		inner = append(append(inner, l...), '\n')
+		switch {
+		case fence != 0 && len(l) >= 3 && l[0] == fence && len(bytes.Trim(l, string(fence))) == 0:
+			fence = 0
+		case fence != 0 && len(l) == 0:
+			inFence = true
+		case fence == 0 && (bytes.HasPrefix(l, []byte("```")) || bytes.HasPrefix(l, []byte("~~~"))):
+			fence = l[0]
+		case fence == 0 && len(l) == 0 && i == 0:
+			fl = append(fl, "first")
+		case fence == 0 && len(l) == 0 && i == len(ls)-1:
+			fl = append(fl, "last")
+		}
+	}
+	if inFence {
+		fl = append(fl, "fence")
+	}
+	innerGot = bytes.TrimSuffix(bytes.TrimPrefix(got, []byte("<blockquote>\n")), []byte("</blockquote>\n"))
+	return inner, innerGot, strings.Join(fl, ",")
+}
+
+// cmfragEmph: for a stage-11 source, the largest numbers of `*x*` and `**x**` on one line and the classes of the
+// bytes directly before an opening and directly after a closing delimiter run (a letter/digit, s space, b backslash-
+// escaped `*`, backtick or backslash, ; the end of a reference, c a code-span delimiter, p other punctuation).
+func cmfragEmph(src []byte) string {
+	class := func(l []byte, i int, before bool) byte {
+		c := l[i]
+		switch {
+		case c >= 'a' && c <= 'z' || c >= 'A' && c <= 'Z' || c >= '0' && c <= '9':
+			return 'a'
+		case c == ' ':
+			return 's'
+		case c == ';' && before:
+			return ';'
+		case before && i > 0 && l[i-1] == '\\' && (c == '*' || c == '`' || c == '\\'):
+			return 'b'
+		case !before && c == '\\' && i+1 < len(l) && (l[i+1] == '*' || l[i+1] == '`' || l[i+1] == '\\'):
+			return 'b'
+		case c == '`':
+			return 'c'
+		}
+		return 'p'
+	}
+	maxEm, maxStrong := 0, 0
+	pre, post := map[byte]bool{}, map[byte]bool{}
+	for _, l := range bytes.Split(src, []byte("\n")) {
+		em, strong, open := 0, 0, false
+		for i := 0; i < len(l); i++ {
+			if l[i] == '\\' {
+				i++
+				continue
+			}
+			if l[i] != '*' {
+				continue
+			}
+			j := i
+			for j < len(l) && l[j] == '*' {
+				j++
+			}
+			if !open {
+				if i > 0 {
+					pre[class(l, i-1, true)] = true
+				}
+			} else {
+				if j-i == 1 {
+					em++
+				} else {
+					strong++
+				}
+				if j < len(l) {
+					post[class(l, j, false)] = true
+				}
+			}
+			open = !open
+			i = j - 1
+		}
+		if em > maxEm {
+			maxEm = em
+		}
+		if strong > maxStrong {
+			maxStrong = strong
+		}
+	}
+	set := func(m map[byte]bool) string {
+		var out []byte
+		for _, k := range []byte("asb;cp") {
+			if m[k] {
+				out = append(out, k)
+			}
+		}
+		return string(out)
+	}
+	return fmt.Sprintf("%d,%d|pre:%s|post:%s", maxEm, maxStrong, set(pre), set(post))
+}
+
+// cmfragUnion: for a stage-13 document, what the union adds: a heading that contains a code span (hc), emphasis (he),
+// strong emphasis (hs); a hard break directly behind a line that contains a code span (bc) / emphasis (be).
+func cmfragUnion(src, got []byte) string {
+	var fl []string
+	seen := map[string]bool{}
+	flag := func(c bool, s string) {
+		if c && !seen[s] {
+			seen[s] = true
+			fl = append(fl, s)
+		}
+	}
+	for _, l := range bytes.Split(got, []byte("\n")) {
+		if len(l) > 3 && l[0] == '<' && l[1] == 'h' && l[2] != 'r' {
+			flag(bytes.Contains(l, []byte("<code>")), "hc")
+			flag(bytes.Contains(l, []byte("<em>")), "he")
+			flag(bytes.Contains(l, []byte("<strong>")), "hs")
+		}
+		if bytes.HasSuffix(l, []byte("<br />")) {
+			flag(bytes.Contains(l, []byte("<code>")), "bc")
+			flag(bytes.Contains(l, []byte("<em>")) || bytes.Contains(l, []byte("<strong>")), "be")
+		}
+	}
+	sort.Strings(fl)
+	return strings.Join(fl, ",")
+}
+
+// cmfragIcode: where the indented code blocks of a stage-12 source stand: for every run of lines that start with four
+// spaces (outside a fence) the kind of the line in front (s start of the document, b blank, p paragraph line, h heading,
+// t thematic break, c closing fence) and behind (e end of the document, b blank + how many blank lines up to 3, else the
+// kind of the following line: p h t c), as a sorted set.
+func cmfragIcode(src []byte) string {
+	ls := bytes.Split(bytes.TrimSuffix(src, []byte("\n")), []byte("\n"))
+	kindOf := func(l []byte) byte {
+		switch {
+		case len(l) == 0:
+			return 'b'
+		case bytes.HasPrefix(l, []byte("    ")):
+			return 'i'
+		case bytes.HasPrefix(l, []byte("```")) || bytes.HasPrefix(l, []byte("~~~")):
+			return 'c'
+		case l[0] == '#':
+			return 'h'
+		case len(l) >= 3 && (l[0] == '-' || l[0] == '*' || l[0] == '_') && len(bytes.Trim(l, string(l[0]))) == 0:
+			return 't'
+		}
+		return 'p'
+	}
+	kinds := make([]byte, len(ls))
+	fence := byte(0)
+	for i, l := range ls {
+		if fence != 0 {
+			kinds[i] = 'x'
+			if len(l) >= 3 && l[0] == fence && len(bytes.Trim(l, string(fence))) == 0 {
+				fence, kinds[i] = 0, 'c'
+			}
+			continue
+		}
+		kinds[i] = kindOf(l)
+		if kinds[i] == 'c' {
+			fence = l[0]
+		}
+	}
+	seen := map[string]bool{}
+	var out []string
+	for i := 0; i < len(ls); i++ {
+		if kinds[i] != 'i' || (i > 0 && kinds[i-1] == 'i') {
+			continue
+		}
+		front := byte('s')
+		if i > 0 {
+			front = kinds[i-1]
+		}
+		j := i
+		for j < len(ls) && kinds[j] == 'i' {
+			j++
+		}
+		behind := "e"
+		if j < len(ls) {
+			behind = string(kinds[j])
+			if kinds[j] == 'b' {
+				n := 0
+				for j+n < len(ls) && kinds[j+n] == 'b' {
+					n++
+				}
+				if n > 3 {
+					n = 3
+				}
+				behind = "b" + strconv.Itoa(n)
+				if j+n < len(ls) {
+					behind += string(kinds[j+n])
+				} else {
+					behind += "e"
+				}
+			}
+		}
+		k := string(front) + ">" + behind
+		if !seen[k] {
+			seen[k] = true
+			out = append(out, k)
+		}
+	}
+	sort.Strings(out)
+	return strings.Join(out, ",")
+}
+
 func implCMFrag(c Case) ImplResult {
 	switch c.Op {
-	case "gen", "enum", "ggen", "genum", "hgen", "henum", "kgen", "kenum":
+	case "gen", "enum", "ggen", "genum", "hgen", "henum", "kgen", "kenum", "egen", "eenum", "rgen", "renum", "bgen", "benum", "qgen", "qenum", "qegen", "qeenum", "emgen", "emenum":
+	case "igen", "ienum", "iegen", "ieenum":
+	case "ugen", "uenum", "uegen", "ueenum":
+	case "nqgen", "nqenum":
 	default:
 		return ImplResult{Out: "bad-op"}
 	}
@@ -291,6 +815,906 @@ func implCMFrag(c Case) ImplResult {
 	if c.Op == "kgen" || c.Op == "kenum" {
 		res.Key += "|abut:" + cmfragAbuts(src)
 	}
+	if c.Op == "egen" || c.Op == "eenum" {
+		res.Key += "|abut:" + cmfragAbuts(src) + "|noeol:" + cmfragLastLine(src)
+	}
+	if c.Op == "rgen" || c.Op == "renum" {
+		res.Key += "|spans:" + cmfragSpans(src)
+	}
+	if c.Op == "bgen" || c.Op == "benum" {
+		res.Key += "|breaks:" + cmfragBreaks(src)
+	}
+	if c.Op == "qgen" || c.Op == "qenum" {
+		inner, innerGot, where := cmfragQuoted(src, got)
+		res.Key = "q|" + cmfragKey(inner, innerGot) + "|abut:" + cmfragAbuts(inner) + "|qblank:" + where
+	}
+	if c.Op == "nqgen" || c.Op == "nqenum" {
+		inner, innerGot, where, depth := cmfragQuotedN(src, got)
+		res.Key = "nq" + strconv.Itoa(depth) + "|" + cmfragKey(inner, innerGot) + "|abut:" + cmfragAbuts(inner) + "|qblank:" + where
+	}
+	if c.Op == "qegen" || c.Op == "qeenum" {
+		inner, innerGot, where := cmfragQuoted(src, got)
+		res.Key = "qe|" + cmfragKey(inner, innerGot) + "|abut:" + cmfragAbuts(inner) + "|qblank:" + where +
+			"|noeol:" + cmfragLastLine(bytes.TrimSuffix(inner, []byte("\n")))
+	}
+	if c.Op == "emgen" || c.Op == "emenum" {
+		res.Key += "|spans:" + cmfragSpans(src) + "|em:" + cmfragEmph(src)
+	}
+	if c.Op == "igen" || c.Op == "ienum" {
+		res.Key += "|icode:" + cmfragIcode(src)
+	}
+	if c.Op == "iegen" || c.Op == "ieenum" {
+		res.Key += "|icode:" + cmfragIcode(src) + "|noeol:" + cmfragLastLine(src)
+	}
+	if c.Op == "ugen" || c.Op == "uenum" || c.Op == "uegen" || c.Op == "ueenum" {
+		res.Key += "|abut:" + cmfragAbuts(src) + "|spans:" + cmfragSpans(src) + "|breaks:" + cmfragBreaks(src) + "|em:" + cmfragEmph(src) + "|u:" + cmfragUnion(src, got)
+		if ic := cmfragIcode(src); ic != "" {
+			res.Key += "|icode:" + ic // the union also has the indented code blocks of stage 12
+		}
+		if c.Op == "uegen" || c.Op == "ueenum" {
+			res.Key += "|noeol:" + cmfragLastLine(src)
+		}
+	}
+	if !bytes.Equal(got, want) {
+		res.Fails = append(res.Fails, OracleFail{Property: "C02", Clause: "fragment-document-differs",
+			Detail: fmt.Sprintf("input=%q got=%q want=%q", src, got, want)})
+	}
+	args := c.Op + " " + strings.Join(c.Args, " ")
+	res.Checks = append(res.Checks,
+		ModelCheck{Line: "cmfrag model " + args, Property: "C02"},
+		ModelCheck{Line: "cmfrag spec " + args, Property: "C02"})
+	return res
+}
+
+// cmfragQuotedN: for a stage-14 source (a stage-6 document inside depth nested block quotes), the stage-6 source (every
+// line without its depth markers `"> "`; the first line of a stage-6 document never begins with `>`, so the depth is
+// the number of times every line begins with `"> "`), the HTML inside the depth `<blockquote>` elements, the places
+// of quoted blank lines as in cmfragQuoted, and the depth.
+func cmfragQuotedN(src, got []byte) (inner, innerGot []byte, where string, depth int) {
+	allQuoted := func(s []byte) bool {
+		if len(s) == 0 {
+			return false
+		}
+		for _, l := range bytes.Split(bytes.TrimSuffix(s, []byte("\n")), []byte("\n")) {
+			if !bytes.HasPrefix(l, []byte("> ")) {
+				return false
+			}
+		}
+		return true
+	}
+	inner, innerGot = src, got
+	for allQuoted(inner) {
+		inner, innerGot, where = cmfragQuoted(inner, innerGot)
+		depth++
+	}
+	return inner, innerGot, where, depth
+}
+
+// Stage 15 (a stage-13 union document inside ONE block quote: `"> "` in front of every line; the source free of the
+// bytes `qcleanByte` excludes, `*` among them, so no emphasis atom occurs: text, code spans, backslash hard breaks, all
+// block kinds; `spellUQ`, `expectedUQ`, `uqembed`): ops `uqenum <i>` (scope size `cmfrag uqcount`) and
+// `uqgen <seed> <size>`. Added behind the other stages by wrapping the registered component (this init runs after the
+// one above).
+func init() {
+	c := components["cmfrag"]
+	if c == nil {
+		return
+	}
+	gen0, impl0, scope0 := c.Gen, c.Impl, c.Scope
+	c.Rule += "; stage 15 = stage-13 documents without `*`, list / link-label starting bytes inside one block quote, compared with expectedUQ; distinct = the key of the quoted stage-13 document (stage-6, stage-8, stage-9 keys, a heading with a code span, a hard break behind a line with a code span), a quoted blank line first / last / inside a fence"
+	c.Scope = func(tier string) string {
+		s := scope0(tier) + "; stage 15, all indices of Driver.CMFrag.uqfamilies (the stage-13 indices made clean: excluded text bytes replaced, *x* respelled as a code span, **x** as text, thematic breaks written with _; one block of every kind x 0..2 blank lines in front x 0..2 behind; a hard break behind each of 6 lines x the line behind it x nothing / a heading with a code span / ___ / a fence directly behind the paragraph x trail 0..1; one heading: 6 levels x 6 lines, alone and directly behind a paragraph x trail 0..1), every line behind a block-quote marker"
+		if tier == "thorough" {
+			return s + "; 40k random stage-15 documents (size 1..10)"
+		}
+		return s + "; 3k random stage-15 documents (size 1..6)"
+	}
+	c.Gen = func(tier string, rng *RNG, emit func(Case)) {
+		gen0(tier, rng, emit)
+		genCMFragUQ(tier, rng, emit)
+	}
+	c.Impl = func(cs Case) ImplResult {
+		if cs.Op == "uqgen" || cs.Op == "uqenum" {
+			return implCMFragUQ(cs)
+		}
+		return impl0(cs)
+	}
+}
+
+func genCMFragUQ(tier string, rng *RNG, emit func(Case)) {
+	nrand, maxSize := 3000, 6
+	if tier == "thorough" {
+		nrand, maxSize = 40000, 10
+	}
+	var cases []Case
+	var lines []string
+	add := func(c Case) {
+		cases = append(cases, c)
+		lines = append(lines, c.Line("cmfrag"))
+	}
+	uqcount := 0
+	if r, err := runDriver(driverPath, []string{"cmfrag uqcount"}); err == nil && len(r) == 1 {
+		uqcount, _ = strconv.Atoi(r[0])
+	}
+	for i := 0; i < uqcount; i++ {
+		add(Case{Op: "uqenum", Args: []string{strconv.Itoa(i)}})
+	}
+	for i := 0; i < nrand; i++ {
+		seed := rng.Next() % 1000000007
+		add(Case{Op: "uqgen", Args: []string{strconv.FormatUint(seed, 10), strconv.Itoa(1 + i%maxSize)}})
+	}
+	resp, err := runDriverParallel(driverPath, lines)
+	if err != nil || uqcount == 0 {
+		// the driver cannot be asked: one case, so that the failure is visible (Impl reports it)
+		emit(Case{Op: "uqgen", Args: []string{"1", "1"}})
+		return
+	}
+	cmfragMu.Lock()
+	for i, l := range lines {
+		cmfragCache[l] = resp[i]
+	}
+	cmfragMu.Unlock()
+	for i, c := range cases {
+		if resp[i] == "skip" || resp[i] == "end" {
+			continue // an index whose document is outside the fragment
+		}
+		emit(c)
+	}
+}
+
+func implCMFragUQ(c Case) ImplResult {
+	line := c.Line("cmfrag")
+	cmfragMu.Lock()
+	resp, ok := cmfragCache[line]
+	cmfragMu.Unlock()
+	if !ok {
+		r, err := runDriver(driverPath, []string{line})
+		if err != nil || len(r) != 1 {
+			return ImplResult{Out: "driver-unavailable", NoModel: true, Fails: []OracleFail{{Property: "C02", Clause: "assumption:generator-unavailable", Detail: fmt.Sprint(err)}}}
+		}
+		resp = r[0]
+	}
+	parts := strings.Split(resp, " ")
+	if len(parts) != 2 {
+		return ImplResult{Out: resp} // skip / end / bad-op: compared with the driver's own answer
+	}
+	src, want := unhx(parts[0]), unhx(parts[1])
+	got := cmfragConvert(src)
+	res := ImplResult{Out: hx(src) + " " + hx(got)}
+	inner, innerGot, where := cmfragQuoted(src, got)
+	res.Key = "uq|" + cmfragKey(inner, innerGot) + "|abut:" + cmfragAbuts(inner) + "|qblank:" + where +
+		"|spans:" + cmfragSpans(inner) + "|breaks:" + cmfragBreaks(inner) + "|u:" + cmfragUnion(inner, innerGot)
+	if !bytes.Equal(got, want) {
+		res.Fails = append(res.Fails, OracleFail{Property: "C02", Clause: "fragment-document-differs",
+			Detail: fmt.Sprintf("input=%q got=%q want=%q", src, got, want)})
+	}
+	args := c.Op + " " + strings.Join(c.Args, " ")
+	res.Checks = append(res.Checks,
+		ModelCheck{Line: "cmfrag model " + args, Property: "C02"},
+		ModelCheck{Line: "cmfrag spec " + args, Property: "C02"})
+	return res
+}
+
+// Stage 16 (paragraphs whose lines are text atoms alternating with INLINE LINKS `[t](d)`: `t` letters and digits, `d`
+// letters, digits and `/`, no title; `spellL`, `expectedL`, `lembed`): ops `lenum <i>` (scope size `cmfrag lcount`)
+// and `lgen <seed> <size>`. Added behind the other stages by wrapping the registered component (this init runs after
+// the ones above).
+func init() {
+	c := components["cmfrag"]
+	if c == nil {
+		return
+	}
+	gen0, impl0, scope0 := c.Gen, c.Impl, c.Scope
+	c.Rule += "; stage 16 = paragraphs whose lines contain inline links [t](d) (t letters/digits, d letters/digits//, no title), compared with expectedL; distinct = the stage-1 key, the largest number of links on one line, the classes of the bytes directly before [ and directly after ), the shapes of the destinations"
+	c.Scope = func(tier string) string {
+		s := scope0(tier) + "; stage 16, all indices of Driver.CMFrag.lfamilies (26 fixed lines: a link touching text / between spaces, two and three links, destinations c /c c/d / // a/b/c/, longer texts, escaped brackets, parentheses, an escaped ! and &excl; next to a link; 95 characters x 7 spellings directly before [ and directly after ), and alone between two links; all shapes of 1..2 paragraphs x 1..3 lines x gap x trail x 9 rotations)"
+		if tier == "thorough" {
+			return s + "; 40k random stage-16 documents (size 1..10)"
+		}
+		return s + "; 3k random stage-16 documents (size 1..6)"
+	}
+	c.Gen = func(tier string, rng *RNG, emit func(Case)) {
+		gen0(tier, rng, emit)
+		genCMFragL(tier, rng, emit)
+	}
+	c.Impl = func(cs Case) ImplResult {
+		if cs.Op == "lgen" || cs.Op == "lenum" {
+			return implCMFragL(cs)
+		}
+		return impl0(cs)
+	}
+}
+
+func genCMFragL(tier string, rng *RNG, emit func(Case)) {
+	nrand, maxSize := 3000, 6
+	if tier == "thorough" {
+		nrand, maxSize = 40000, 10
+	}
+	var cases []Case
+	var lines []string
+	add := func(c Case) {
+		cases = append(cases, c)
+		lines = append(lines, c.Line("cmfrag"))
+	}
+	lcount := 0
+	if r, err := runDriver(driverPath, []string{"cmfrag lcount"}); err == nil && len(r) == 1 {
+		lcount, _ = strconv.Atoi(r[0])
+	}
+	for i := 0; i < lcount; i++ {
+		add(Case{Op: "lenum", Args: []string{strconv.Itoa(i)}})
+	}
+	for i := 0; i < nrand; i++ {
+		seed := rng.Next() % 1000000007
+		add(Case{Op: "lgen", Args: []string{strconv.FormatUint(seed, 10), strconv.Itoa(1 + i%maxSize)}})
+	}
+	resp, err := runDriverParallel(driverPath, lines)
+	if err != nil || lcount == 0 {
+		// the driver cannot be asked: one case, so that the failure is visible (Impl reports it)
+		emit(Case{Op: "lgen", Args: []string{"1", "1"}})
+		return
+	}
+	cmfragMu.Lock()
+	for i, l := range lines {
+		cmfragCache[l] = resp[i]
+	}
+	cmfragMu.Unlock()
+	for i, c := range cases {
+		if resp[i] == "skip" || resp[i] == "end" {
+			continue // an index whose document is outside the fragment
+		}
+		emit(c)
+	}
+}
+
+// cmfragLinks: for a stage-16 source, the largest number of links on one line, the classes of the bytes directly
+// before `[` and directly after `)` of a link (a letter/digit, s space, b a backslash-escaped byte, ; the end of a
+// reference, p other punctuation) and the shapes of the destinations (s only slashes, l leading slash, t trailing
+// slash, m a slash inside, n no slash).
+func cmfragLinks(src []byte) string {
+	alnum := func(c byte) bool { return c >= 'a' && c <= 'z' || c >= 'A' && c <= 'Z' || c >= '0' && c <= '9' }
+	maxLinks := 0
+	pre, post, shape := map[byte]bool{}, map[byte]bool{}, map[byte]bool{}
+	for _, l := range bytes.Split(src, []byte("\n")) {
+		links := 0
+		for i := 0; i < len(l); i++ {
+			if l[i] == '\\' {
+				i++
+				continue
+			}
+			if l[i] != '[' {
+				continue
+			}
+			j := i + 1
+			for j < len(l) && alnum(l[j]) {
+				j++
+			}
+			if j == i+1 || j+1 >= len(l) || l[j] != ']' || l[j+1] != '(' {
+				continue
+			}
+			k := j + 2
+			for k < len(l) && (alnum(l[k]) || l[k] == '/') {
+				k++
+			}
+			if k == j+2 || k >= len(l) || l[k] != ')' {
+				continue
+			}
+			links++
+			if i > 0 {
+				c := l[i-1]
+				switch {
+				case i > 1 && l[i-2] == '\\' && !alnum(c):
+					pre['b'] = true
+				case alnum(c):
+					pre['a'] = true
+				case c == ' ':
+					pre['s'] = true
+				case c == ';':
+					pre[';'] = true
+				default:
+					pre['p'] = true
+				}
+			}
+			if k+1 < len(l) {
+				c := l[k+1]
+				switch {
+				case c == '\\':
+					post['b'] = true
+				case alnum(c):
+					post['a'] = true
+				case c == ' ':
+					post['s'] = true
+				case c == '&':
+					post[';'] = true
+				default:
+					post['p'] = true
+				}
+			}
+			d := l[j+2 : k]
+			switch {
+			case len(bytes.Trim(d, "/")) == 0:
+				shape['s'] = true
+			case d[0] == '/':
+				shape['l'] = true
+			case d[len(d)-1] == '/':
+				shape['t'] = true
+			case bytes.IndexByte(d, '/') >= 0:
+				shape['m'] = true
+			default:
+				shape['n'] = true
+			}
+			i = k
+		}
+		if links > maxLinks {
+			maxLinks = links
+		}
+	}
+	set := func(m map[byte]bool) string {
+		var b []byte
+		for _, c := range []byte("abps;lmnt") {
+			if m[c] {
+				b = append(b, c)
+			}
+		}
+		return string(b)
+	}
+	if maxLinks > 3 {
+		maxLinks = 3
+	}
+	return strconv.Itoa(maxLinks) + "/" + set(pre) + "/" + set(post) + "/" + set(shape)
+}
+
+func implCMFragL(c Case) ImplResult {
+	line := c.Line("cmfrag")
+	cmfragMu.Lock()
+	resp, ok := cmfragCache[line]
+	cmfragMu.Unlock()
+	if !ok {
+		r, err := runDriver(driverPath, []string{line})
+		if err != nil || len(r) != 1 {
+			return ImplResult{Out: "driver-unavailable", NoModel: true, Fails: []OracleFail{{Property: "C02", Clause: "assumption:generator-unavailable", Detail: fmt.Sprint(err)}}}
+		}
+		resp = r[0]
+	}
+	parts := strings.Split(resp, " ")
+	if len(parts) != 2 {
+		return ImplResult{Out: resp} // skip / end / bad-op: compared with the driver's own answer
+	}
+	src, want := unhx(parts[0]), unhx(parts[1])
+	got := cmfragConvert(src)
+	res := ImplResult{Out: hx(src) + " " + hx(got), Key: "l|" + cmfragKey(src, got) + "|links:" + cmfragLinks(src)}
+	if !bytes.Equal(got, want) {
+		res.Fails = append(res.Fails, OracleFail{Property: "C02", Clause: "fragment-document-differs",
+			Detail: fmt.Sprintf("input=%q got=%q want=%q", src, got, want)})
+	}
+	args := c.Op + " " + strings.Join(c.Args, " ")
+	res.Checks = append(res.Checks,
+		ModelCheck{Line: "cmfrag model " + args, Property: "C02"},
+		ModelCheck{Line: "cmfrag spec " + args, Property: "C02"})
+	return res
+}
+
+// Stage 17 (paragraphs whose lines are text atoms alternating with IMAGES `![t](d)`: `t` letters and digits, `d`
+// letters, digits and `/`, no title; `spellImg`, `expectedImg`, `imgembed`): ops `imgenum <i>` (scope size
+// `cmfrag imgcount`) and `imggen <seed> <size>`. Stage 18 (the same with URI AUTOLINKS `<s:r>`: `s` 2..32 letters, `r`
+// letters, digits, `/` and `.`; `spellAD`, `expectedAD`, `aembed`): ops `aenum <i>` (scope size `cmfrag acount`) and
+// `agen <seed> <size>`. Added behind the other stages by wrapping the registered component (this init runs after the
+// ones above).
+func init() {
+	c := components["cmfrag"]
+	if c == nil {
+		return
+	}
+	gen0, impl0, scope0 := c.Gen, c.Impl, c.Scope
+	c.Rule += "; stage 17 = paragraphs whose lines contain images ![t](d) (t letters/digits, d letters/digits//, no title), compared with expectedImg; stage 18 = paragraphs whose lines contain URI autolinks <s:r> (s 2..32 letters, r letters/digits///.), compared with expectedAD; distinct (both) = the stage-1 key, the largest number of images / autolinks on one line, the classes of the bytes directly before and directly after them, the shapes of the destinations / the lengths of the schemes"
+	c.Scope = func(tier string) string {
+		s := scope0(tier) + "; stage 17, all indices of Driver.CMFrag.enumImg (the stage-16 indices with every link written as an image; 9 lines of their own: an escaped backslash, an escaped !, &excl;, &#33; directly in front of the image, an escaped ! behind it); stage 18, all indices of Driver.CMFrag.enumA (the stage-16 indices with every link written as an autolink; 23 lines of their own: schemes of 1 (skipped), 2, 3, 32, 33 (skipped) letters, upper case, well-known schemes, a rest ending in . or /, escaped < > and backslash next to the autolink)"
+		if tier == "thorough" {
+			return s + "; 40k random stage-17 and 40k random stage-18 documents (size 1..10)"
+		}
+		return s + "; 3k random stage-17 and 3k random stage-18 documents (size 1..6)"
+	}
+	c.Gen = func(tier string, rng *RNG, emit func(Case)) {
+		gen0(tier, rng, emit)
+		genCMFragAtoms(tier, rng, emit, "img")
+		genCMFragAtoms(tier, rng, emit, "a")
+	}
+	c.Impl = func(cs Case) ImplResult {
+		switch cs.Op {
+		case "imggen", "imgenum":
+			return implCMFragAtoms(cs, "img")
+		case "agen", "aenum":
+			return implCMFragAtoms(cs, "a")
+		}
+		return impl0(cs)
+	}
+}
+
+// genCMFragAtoms: the cases of a stage whose ops are `<p>count`, `<p>enum <i>`, `<p>gen <seed> <size>`.
+func genCMFragAtoms(tier string, rng *RNG, emit func(Case), p string) {
+	nrand, maxSize := 3000, 6
+	if tier == "thorough" {
+		nrand, maxSize = 40000, 10
+	}
+	var cases []Case
+	var lines []string
+	add := func(c Case) {
+		cases = append(cases, c)
+		lines = append(lines, c.Line("cmfrag"))
+	}
+	count := 0
+	if r, err := runDriver(driverPath, []string{"cmfrag " + p + "count"}); err == nil && len(r) == 1 {
+		count, _ = strconv.Atoi(r[0])
+	}
+	for i := 0; i < count; i++ {
+		add(Case{Op: p + "enum", Args: []string{strconv.Itoa(i)}})
+	}
+	for i := 0; i < nrand; i++ {
+		seed := rng.Next() % 1000000007
+		add(Case{Op: p + "gen", Args: []string{strconv.FormatUint(seed, 10), strconv.Itoa(1 + i%maxSize)}})
+	}
+	resp, err := runDriverParallel(driverPath, lines)
+	if err != nil || count == 0 {
+		// the driver cannot be asked: one case, so that the failure is visible (Impl reports it)
+		emit(Case{Op: p + "gen", Args: []string{"1", "1"}})
+		return
+	}
+	cmfragMu.Lock()
+	for i, l := range lines {
+		cmfragCache[l] = resp[i]
+	}
+	cmfragMu.Unlock()
+	for i, c := range cases {
+		if resp[i] == "skip" || resp[i] == "end" {
+			continue // an index whose document is outside the fragment
+		}
+		emit(c)
+	}
+}
+
+// cmfragAtoms17: for a stage-17 (`img`) or stage-18 (`a`) source, the largest number of images / autolinks on one
+// line, the classes of the bytes directly before and directly after one (a letter/digit, s space, b a
+// backslash-escaped byte, ; the end of a reference, p other punctuation), and the shape of the destination as in
+// cmfragLinks (stage 17) / the length class of the scheme and the last byte of the URI (stage 18).
+func cmfragAtoms17(src []byte, p string) string {
+	alnum := func(c byte) bool { return c >= 'a' && c <= 'z' || c >= 'A' && c <= 'Z' || c >= '0' && c <= '9' }
+	maxN := 0
+	pre, post, shape := map[byte]bool{}, map[byte]bool{}, map[byte]bool{}
+	for _, l := range bytes.Split(src, []byte("\n")) {
+		n := 0
+		for i := 0; i < len(l); i++ {
+			if l[i] == '\\' {
+				i++
+				continue
+			}
+			start, end := -1, -1
+			if p == "img" && l[i] == '!' && i+1 < len(l) && l[i+1] == '[' {
+				if k := bytes.IndexByte(l[i:], ')'); k > 0 {
+					start, end = i, i+k
+					d := l[i+bytes.Index(l[i:], []byte("]("))+2 : end]
+					switch {
+					case len(bytes.Trim(d, "/")) == 0:
+						shape['s'] = true
+					case d[0] == '/':
+						shape['l'] = true
+					case d[len(d)-1] == '/':
+						shape['t'] = true
+					case bytes.IndexByte(d, '/') >= 0:
+						shape['m'] = true
+					default:
+						shape['n'] = true
+					}
+				}
+			}
+			if p == "a" && l[i] == '<' {
+				if k := bytes.IndexByte(l[i:], '>'); k > 0 {
+					start, end = i, i+k
+					sl := bytes.IndexByte(l[i:end], ':') - 1
+					switch {
+					case sl == 2:
+						shape['2'] = true
+					case sl == 32:
+						shape['3'] = true
+					case sl > 8:
+						shape['L'] = true
+					default:
+						shape['S'] = true
+					}
+					switch l[end-1] {
+					case '.':
+						shape['.'] = true
+					case '/':
+						shape['/'] = true
+					}
+				}
+			}
+			if start < 0 {
+				continue
+			}
+			n++
+			if start > 0 {
+				c := l[start-1]
+				switch {
+				case start > 1 && l[start-2] == '\\' && !alnum(c):
+					pre['b'] = true
+				case alnum(c):
+					pre['a'] = true
+				case c == ' ':
+					pre['s'] = true
+				case c == ';':
+					pre[';'] = true
+				default:
+					pre['p'] = true
+				}
+			}
+			if end+1 < len(l) {
+				c := l[end+1]
+				switch {
+				case c == '\\':
+					post['b'] = true
+				case alnum(c):
+					post['a'] = true
+				case c == ' ':
+					post['s'] = true
+				case c == '&':
+					post[';'] = true
+				default:
+					post['p'] = true
+				}
+			}
+			i = end
+		}
+		if n > maxN {
+			maxN = n
+		}
+	}
+	set := func(m map[byte]bool) string {
+		var b []byte
+		for _, c := range []byte("abps;lmnt23LS./") {
+			if m[c] {
+				b = append(b, c)
+			}
+		}
+		return string(b)
+	}
+	if maxN > 3 {
+		maxN = 3
+	}
+	return strconv.Itoa(maxN) + "/" + set(pre) + "/" + set(post) + "/" + set(shape)
+}
+
+func implCMFragAtoms(c Case, p string) ImplResult {
+	line := c.Line("cmfrag")
+	cmfragMu.Lock()
+	resp, ok := cmfragCache[line]
+	cmfragMu.Unlock()
+	if !ok {
+		r, err := runDriver(driverPath, []string{line})
+		if err != nil || len(r) != 1 {
+			return ImplResult{Out: "driver-unavailable", NoModel: true, Fails: []OracleFail{{Property: "C02", Clause: "assumption:generator-unavailable", Detail: fmt.Sprint(err)}}}
+		}
+		resp = r[0]
+	}
+	parts := strings.Split(resp, " ")
+	if len(parts) != 2 {
+		return ImplResult{Out: resp} // skip / end / bad-op: compared with the driver's own answer
+	}
+	src, want := unhx(parts[0]), unhx(parts[1])
+	got := cmfragConvert(src)
+	res := ImplResult{Out: hx(src) + " " + hx(got), Key: p + "|" + cmfragKey(src, got) + "|atoms:" + cmfragAtoms17(src, p)}
+	if !bytes.Equal(got, want) {
+		res.Fails = append(res.Fails, OracleFail{Property: "C02", Clause: "fragment-document-differs",
+			Detail: fmt.Sprintf("input=%q got=%q want=%q", src, got, want)})
+	}
+	args := c.Op + " " + strings.Join(c.Args, " ")
+	res.Checks = append(res.Checks,
+		ModelCheck{Line: "cmfrag model " + args, Property: "C02"},
+		ModelCheck{Line: "cmfrag spec " + args, Property: "C02"})
+	return res
+}
+
+// Stage 19 (paragraphs whose lines are text atoms alternating with RAW HTML TAGS `<n>` / `</n>`: `n` a letter followed
+// by letters and digits, no attributes; the prescribed HTML keeps the bytes of the tag: the component runs goldmark
+// WithUnsafe; `spellH19`, `expectedH19`, `h19embed`): ops `h19enum <i>` (scope size `cmfrag h19count`) and
+// `h19gen <seed> <size>`. Added behind the other stages by wrapping the registered component.
+func init() {
+	c := components["cmfrag"]
+	if c == nil {
+		return
+	}
+	gen0, impl0, scope0 := c.Gen, c.Impl, c.Scope
+	c.Rule += "; stage 19 = paragraphs whose lines contain raw HTML tags <n> and </n> (n a letter followed by letters/digits, no attributes), compared with expectedH19; distinct = the stage-1 key, the largest number of tags on one line, the classes of the bytes directly before < and directly after >, open / closing tags, the classes of the tag names (one character, upper case, digit, block-level name)"
+	c.Scope = func(tier string) string {
+		s := scope0(tier) + "; stage 19, all indices of Driver.CMFrag.enumH19 (the stage-16 indices with every link written as an open or a closing tag; 25 lines of their own: names of 1, 2, 10 characters, upper case, with digits, div p pre script style textarea a in inline position, escaped < > and backslash next to a tag; names beginning with a digit, containing - or empty are skipped)"
+		if tier == "thorough" {
+			return s + "; 40k random stage-19 documents (size 1..10)"
+		}
+		return s + "; 3k random stage-19 documents (size 1..6)"
+	}
+	c.Gen = func(tier string, rng *RNG, emit func(Case)) {
+		gen0(tier, rng, emit)
+		genCMFragAtoms(tier, rng, emit, "h19")
+	}
+	c.Impl = func(cs Case) ImplResult {
+		if cs.Op == "h19gen" || cs.Op == "h19enum" {
+			res := implCMFragAtoms(cs, "h19")
+			if parts := strings.Split(res.Out, " "); len(parts) == 2 {
+				res.Key = "h19|" + cmfragKey(unhx(parts[0]), unhx(parts[1])) + "|tags:" + cmfragTags19(unhx(parts[0]))
+			}
+			return res
+		}
+		return impl0(cs)
+	}
+}
+
+// cmfragTags19: for a stage-19 source, the largest number of tags on one line, the classes of the bytes directly
+// before `<` and directly after `>` of a tag (as in cmfragLinks), o / c for open / closing tags, and the classes of
+// the tag names (1 one character, U an upper-case letter, d a digit, B the name of a block-level element).
+func cmfragTags19(src []byte) string {
+	alnum := func(c byte) bool { return c >= 'a' && c <= 'z' || c >= 'A' && c <= 'Z' || c >= '0' && c <= '9' }
+	block := map[string]bool{"div": true, "p": true, "pre": true, "script": true, "style": true, "textarea": true, "h1": true}
+	maxN := 0
+	pre, post, kind := map[byte]bool{}, map[byte]bool{}, map[byte]bool{}
+	for _, l := range bytes.Split(src, []byte("\n")) {
+		n := 0
+		for i := 0; i < len(l); i++ {
+			if l[i] == '\\' {
+				i++
+				continue
+			}
+			if l[i] != '<' {
+				continue
+			}
+			k := bytes.IndexByte(l[i:], '>')
+			if k < 0 {
+				continue
+			}
+			end := i + k
+			name := l[i+1 : end]
+			if len(name) > 0 && name[0] == '/' {
+				kind['c'] = true
+				name = name[1:]
+			} else {
+				kind['o'] = true
+			}
+			if len(name) == 1 {
+				kind['1'] = true
+			}
+			for _, c := range name {
+				if c >= 'A' && c <= 'Z' {
+					kind['U'] = true
+				}
+				if c >= '0' && c <= '9' {
+					kind['d'] = true
+				}
+			}
+			if block[strings.ToLower(string(name))] {
+				kind['B'] = true
+			}
+			n++
+			if i > 0 {
+				c := l[i-1]
+				switch {
+				case i > 1 && l[i-2] == '\\' && !alnum(c):
+					pre['b'] = true
+				case alnum(c):
+					pre['a'] = true
+				case c == ' ':
+					pre['s'] = true
+				case c == ';':
+					pre[';'] = true
+				default:
+					pre['p'] = true
+				}
+			}
+			if end+1 < len(l) {
+				c := l[end+1]
+				switch {
+				case c == '\\':
+					post['b'] = true
+				case alnum(c):
+					post['a'] = true
+				case c == ' ':
+					post['s'] = true
+				case c == '&':
+					post[';'] = true
+				default:
+					post['p'] = true
+				}
+			}
+			i = end
+		}
+		if n > maxN {
+			maxN = n
+		}
+	}
+	set := func(m map[byte]bool) string {
+		var b []byte
+		for _, c := range []byte("abps;oc1UdB") {
+			if m[c] {
+				b = append(b, c)
+			}
+		}
+		return string(b)
+	}
+	if maxN > 3 {
+		maxN = 3
+	}
+	return strconv.Itoa(maxN) + "/" + set(pre) + "/" + set(post) + "/" + set(kind)
+}
+
+// ---- stage 20 (underscore emphasis); formerly a file of its own ----
+// Stage 20 of component `cmfrag` (paragraphs whose lines are text atoms alternating with UNDERSCORE emphasis `_x_` /
+// `__x__`, x letters and digits; the source byte in front of an opening run and the one behind a closing run is white
+// space or punctuation; `spellUn`, `expectedUn`, `unembed`): ops `unenum <i>` (scope size `cmfrag uncount`) and
+// `ungen <seed> <size>`. And the NON-members `unnon <i>` (scope size `cmfrag unnoncount`): lines with one emphasis atom
+// that violate exactly that neighbour condition (`a_b_c`, `a_b_ c`, `a _b_c`, …); CommonMark reads them as literal text,
+// the expected output is the literal line. Added behind the other stages by wrapping the registered component (this
+// init stands behind the other ones of this file: the init functions of one file run in their order of appearance).
+
+
+func init() {
+	c := components["cmfrag"]
+	if c == nil {
+		return
+	}
+	gen0, impl0, scope0 := c.Gen, c.Impl, c.Scope
+	c.Rule += "; stage 20 = paragraphs whose lines contain underscore emphasis _x_ / __x__ between text whose neighbouring source bytes are white space or punctuation, compared with expectedUn, and the non-members (a letter or digit as neighbouring source byte) compared with the literal line; distinct = the stage-1 key, member or not, the numbers of _x_ and __x__ of the fullest line, the classes of the source bytes directly before an opening and directly after a closing run"
+	c.Scope = func(tier string) string {
+		s := scope0(tier) + "; stage 20, all indices of Driver.CMFrag.unfamilies (19 fixed lines x gap 0..1 x trail 0..1; each of the 95 printable characters x 7 spellings directly before an opening and directly after a closing _ / __ run, and alone between all 4 ordered pairs of {_x_, __x__}, members only; all shapes of 1..2 paragraphs x 1..3 lines x gap 0..1 x trail 0..1 x 6 line-pool rotations; blank lines only) and all indices of Driver.CMFrag.unNonDoc (a_b_c, a_b_ c, a _b_c, the same with __, and the edge documents that are not members)"
+		if tier == "thorough" {
+			return s + "; 40k random stage-20 documents (size 1..10)"
+		}
+		return s + "; 3k random stage-20 documents (size 1..6)"
+	}
+	c.Gen = func(tier string, rng *RNG, emit func(Case)) {
+		gen0(tier, rng, emit)
+		genCMFragAtoms(tier, rng, emit, "un")
+		genCMFragUnNon(emit)
+	}
+	c.Impl = func(cs Case) ImplResult {
+		switch cs.Op {
+		case "ungen", "unenum", "unnon":
+			return implCMFragUn(cs)
+		}
+		return impl0(cs)
+	}
+}
+
+// genCMFragUnNon: the non-member cases `unnon <i>`.
+func genCMFragUnNon(emit func(Case)) {
+	count := 0
+	if r, err := runDriver(driverPath, []string{"cmfrag unnoncount"}); err == nil && len(r) == 1 {
+		count, _ = strconv.Atoi(r[0])
+	}
+	var cases []Case
+	var lines []string
+	for i := 0; i < count; i++ {
+		c := Case{Op: "unnon", Args: []string{strconv.Itoa(i)}}
+		cases = append(cases, c)
+		lines = append(lines, c.Line("cmfrag"))
+	}
+	resp, err := runDriverParallel(driverPath, lines)
+	if err != nil || count == 0 {
+		emit(Case{Op: "unnon", Args: []string{"0"}})
+		return
+	}
+	cmfragMu.Lock()
+	for i, l := range lines {
+		cmfragCache[l] = resp[i]
+	}
+	cmfragMu.Unlock()
+	for i, c := range cases {
+		if resp[i] == "skip" || resp[i] == "end" {
+			continue // a member, or outside for another reason (a literal `!`)
+		}
+		emit(c)
+	}
+}
+
+// cmfragUnder: for a stage-20 source, the largest numbers of `_x_` and `__x__` on one line and the classes of the bytes
+// directly before an opening and directly after a closing run (a letter/digit, s space, b a backslash-escaped byte /
+// the backslash of an escape, ; the end / & the start of a reference, p other punctuation).
+func cmfragUnder(src []byte) string {
+	alnum := func(c byte) bool { return c >= 'a' && c <= 'z' || c >= 'A' && c <= 'Z' || c >= '0' && c <= '9' }
+	maxEm, maxStrong := 0, 0
+	pre, post := map[byte]bool{}, map[byte]bool{}
+	for _, l := range bytes.Split(src, []byte("\n")) {
+		em, strong, open := 0, 0, false
+		for i := 0; i < len(l); i++ {
+			if l[i] == '\\' {
+				i++
+				continue
+			}
+			if l[i] != '_' {
+				continue
+			}
+			j := i
+			for j < len(l) && l[j] == '_' {
+				j++
+			}
+			if !open {
+				if i > 0 {
+					c := l[i-1]
+					switch {
+					case i > 1 && l[i-2] == '\\' && !alnum(c):
+						pre['b'] = true
+					case alnum(c):
+						pre['a'] = true
+					case c == ' ':
+						pre['s'] = true
+					case c == ';':
+						pre[';'] = true
+					default:
+						pre['p'] = true
+					}
+				}
+			} else {
+				if j-i == 1 {
+					em++
+				} else {
+					strong++
+				}
+				if j < len(l) {
+					c := l[j]
+					switch {
+					case c == '\\':
+						post['b'] = true
+					case alnum(c):
+						post['a'] = true
+					case c == ' ':
+						post['s'] = true
+					case c == '&':
+						post['&'] = true
+					default:
+						post['p'] = true
+					}
+				}
+			}
+			open = !open
+			i = j - 1
+		}
+		if em > maxEm {
+			maxEm = em
+		}
+		if strong > maxStrong {
+			maxStrong = strong
+		}
+	}
+	set := func(m map[byte]bool) string {
+		var b []byte
+		for _, c := range []byte("asb;&p") {
+			if m[c] {
+				b = append(b, c)
+			}
+		}
+		return string(b)
+	}
+	return fmt.Sprintf("%d,%d/%s/%s", maxEm, maxStrong, set(pre), set(post))
+}
+
+func implCMFragUn(c Case) ImplResult {
+	line := c.Line("cmfrag")
+	cmfragMu.Lock()
+	resp, ok := cmfragCache[line]
+	cmfragMu.Unlock()
+	if !ok {
+		r, err := runDriver(driverPath, []string{line})
+		if err != nil || len(r) != 1 {
+			return ImplResult{Out: "driver-unavailable", NoModel: true, Fails: []OracleFail{{Property: "C02", Clause: "assumption:generator-unavailable", Detail: fmt.Sprint(err)}}}
+		}
+		resp = r[0]
+	}
+	parts := strings.Split(resp, " ")
+	if len(parts) != 2 {
+		return ImplResult{Out: resp} // skip / end / bad-op: compared with the driver's own answer
+	}
+	src, want := unhx(parts[0]), unhx(parts[1])
+	got := cmfragConvert(src)
+	kind := "un|"
+	if c.Op == "unnon" {
+		kind = "unnon|"
+	}
+	res := ImplResult{Out: hx(src) + " " + hx(got), Key: kind + cmfragKey(src, got) + "|under:" + cmfragUnder(src)}
 	if !bytes.Equal(got, want) {
 		res.Fails = append(res.Fails, OracleFail{Property: "C02", Clause: "fragment-document-differs",
 			Detail: fmt.Sprintf("input=%q got=%q want=%q", src, got, want)})
